@@ -1,5 +1,7 @@
 import Proofs.KeysString
 import Proofs.KeysRoundTrip
+import Proofs.KeysDerCanon
+import Proofs.KeysInst
 /-!
 # C08 — public keys are accepted iff they encode a valid point of the right group
 
@@ -19,7 +21,9 @@ the clause is vacuous and the statement is the full one given `#E(F_p) = n` (SEC
 The square-root routine is the parameter `E.sqrtModP` with contract `SqrtSpec` (C15's theorem).
 -/
 namespace C08
-open Keys KeysP
+open Keys KeysP Asn1Spec
+
+theorem table_p_odd : ∀ c ∈ Gen.curveTable, c.p % 2 = 1 ∧ c.n ≠ 0 := by decide +kernel
 
 /-- accepted ⇔ one of the exact lengths with a matching prefix, coordinates in `[0, p-1]`, curve equation, parity
 rule, subgroup test (the code's); and the accepted key denotes exactly the encoded point -/
@@ -92,6 +96,102 @@ theorem accepted_coordinates_reduced (E : Ext) (c : Curve) (s : Bytes) (v : Bool
           · injection h with h; subst h
             exact ⟨by show x.toNat < c.p; omega, by show y.toNat < c.p; omega⟩
 
+/-! ### instantiated with the executable models of the other layers (`KeysWire.modelExt`)
+
+`sqrtModP := NT.squareRootModPrime` (its contract is C15's theorem `sqrt_spec`, so the hypothesis disappears),
+`subgroupOk := KeysWire.subgroupOkModel` = `Curve.ptEq (Curve.pjMul ⟨curve, x, y, 1, n⟩ n) INFINITY` (C06/C07's model; the
+clause stays the code's test: K2). -/
+
+/-- the acceptance theorem for the composed model: only `p` prime is assumed -/
+theorem from_string_accepts_iff_model_partial (c : Curve) (hc : c ∈ Gen.curveTable) (hp : c.p.Prime) (s : Bytes) (k : VK) :
+    VK.fromString KeysWire.modelExt c s true = .ok k ↔
+      k.curve = c ∧ Encodes (Util.orderlen c.p) s k.x k.y ∧
+        k.x < c.p ∧ k.y < c.p ∧ onCurve c k.x k.y = true ∧ (c.h ≠ 1 → KeysWire.subgroupOkModel c k.x k.y = true) := by
+  have hodd : c.p % 2 = 1 := (table_p_odd _ hc).1
+  exact from_string_accepts_iff_partial KeysWire.modelExt c hp hodd (table_p_odd _ hc).2
+    (sqrtSpec_modelExt c.p hp (by omega)) s k
+
+theorem from_string_rejects_malformed_model (c : Curve) (hc : c ∈ Gen.curveTable) (hp : c.p.Prime) (s : Bytes)
+    (validate : Bool) (e : PyErr) (h : VK.fromString KeysWire.modelExt c s validate = .error e) : e = .malformedPoint := by
+  have hodd : c.p % 2 = 1 := (table_p_odd _ hc).1
+  exact from_string_rejects_malformed KeysWire.modelExt c hp.pos (sqrtSpec_modelExt c.p hp (by omega)) s validate e h
+
+/-! ### the DER / PEM wrapper -/
+
+/-- `VerifyingKey.from_der` accepts `s` ⇔ `s` is byte for byte the canonical DER (spec encoder of `Proofs/Asn1.lean`) of
+`SubjectPublicKeyInfo { { id-ecPublicKey, OID of a curve of the table }, BIT STRING with 0 unused bits }`, the bit-string
+payload is not of the raw length, and `from_string` (validation on) accepts the payload — the key is then the one
+`from_string` returns (characterised by `from_string_accepts_iff_partial`, whence the `_partial`). -/
+theorem from_der_accepts_iff_partial (E : Ext) (s : Bytes) (k : VK) :
+    VK.fromDer E s = .ok k ↔
+      ∃ c : Curve, c ∈ Gen.curveTable ∧ ∃ pt : Bytes, s = (spki c.oid pt).enc ∧ pt.length ≠ c.vkLen ∧
+        VK.fromString E c pt true = .ok k := by
+  constructor
+  · exact vk_fromDer_ok E s k
+  · rintro ⟨c, hc, pt, hs, hraw, hfs⟩
+    have hptl : pt.length ≤ 133 := by
+      have := fromString_ok_length E c pt true k hfs
+      have := (table_orderlen_le _ hc).1
+      omega
+    rw [hs, vk_fromDer_spec E c hc (table_findCurve _ hc) pt hptl hraw]
+    exact hfs
+
+/-- every other DER input raises `UnexpectedDER` (bad wrapper), `UnknownCurveError` (unknown OID) or
+`MalformedPointError` (bad point inside a good wrapper) -/
+theorem from_der_rejects_documented (E : Ext) (hsq : ∀ c ∈ Gen.curveTable, SqrtSpec E.sqrtModP c.p) (s : Bytes) (e : PyErr)
+    (h : VK.fromDer E s = .error e) : e = .unexpectedDER ∨ e = .malformedPoint ∨ e = .unknownCurve :=
+  vk_fromDer_err E hsq s e h
+
+/-- a `MalformedPointError` from `from_der` means the wrapper was a canonical SPKI of a table curve and only the point
+was refused; so a bad wrapper is always `UnexpectedDER` / `UnknownCurveError` -/
+theorem from_der_malformed_point_only_for_good_wrapper (E : Ext) (s : Bytes)
+    (h : VK.fromDer E s = .error .malformedPoint) :
+    ∃ c : Curve, c ∈ Gen.curveTable ∧ ∃ pt : Bytes, ∃ rest : Bytes, Der.removeBitstring rest (.some 0) = .ok (pt, none, []) ∧
+      pt.length ≠ c.vkLen ∧ VK.fromString E c pt true = .error .malformedPoint := by
+  unfold VK.fromDer at h
+  rcases bind_err h with h | ⟨⟨s1, empty⟩, _, h⟩
+  · cases (Der.removeSequence_err h)
+  simp only at h
+  split at h
+  · cases h
+  rcases bind_err h with h | ⟨⟨s2, bitstr⟩, _, h⟩
+  · cases (Der.removeSequence_err h)
+  simp only at h
+  rcases bind_err h with h | ⟨⟨oidPk, rest⟩, _, h⟩
+  · cases (Der.removeObject_err h)
+  simp only at h
+  rcases bind_err h with h | ⟨⟨oidCurve, empty2⟩, _, h⟩
+  · cases (Der.removeObject_err h)
+  simp only at h
+  split at h
+  · cases h
+  split at h
+  · cases h
+  rcases bind_err h with h | ⟨curve, hcv, h⟩
+  · cases (findCurve_err h)
+  rcases bind_err h with h | ⟨⟨pointStr, o, empty3⟩, hb, h⟩
+  · cases (Der.removeBitstring_err h)
+  simp only at h
+  split at h
+  · cases h
+  rename_i he3
+  simp only [ne_eq, not_not] at he3
+  split at h
+  · cases h
+  rename_i hraw
+  obtain ⟨ho, _⟩ := Der.removeBitstring_some_ok hb
+  subst ho he3
+  exact ⟨curve, (findCurve_ok hcv).1, pointStr, bitstr, hb, hraw, h⟩
+
+/-- `from_pem` is `from_der` of the armour's payload (so the same characterisation applies); a bad armour is
+`UnexpectedDER` -/
+theorem from_pem_is_from_der_of_unpem (E : Ext) (pem : Bytes) :
+    VK.fromPem E pem = (match unpem E pem with | .error _ => .error .unexpectedDER | .ok d => VK.fromDer E d) := by
+  unfold VK.fromPem
+  cases h : unpem E pem with
+  | error e => rw [unpem_err E pem e h]
+  | ok d => rfl
+
 /-! ### non-vacuity: the generator of NIST P-192, uncompressed, is an `Encodes`-encoding of a `ValidPoint` -/
 
 def noExt : Ext := { subgroupOk := fun _ _ _ => true, sqrtModP := fun _ _ => .error .squareRoot,
@@ -111,6 +211,27 @@ example :
 example :
     VK.fromString noExt Gen.curve_SECP112r1
       (0x04 :: (beFixed 14 (Gen.curve_SECP112r1.gx + Gen.curve_SECP112r1.p) ++ beFixed 14 Gen.curve_SECP112r1.gy)) true
+      = .error .malformedPoint := by decide +kernel
+
+/-- the DER wrapper on a concrete key: the spec-encoded SPKI of the NIST P-192 base point is accepted by the model -/
+example :
+    VK.fromDer noExt (spki Gen.curve_NIST192p.oid
+      (0x04 :: (beFixed 24 Gen.curve_NIST192p.gx ++ beFixed 24 Gen.curve_NIST192p.gy))).enc
+      = .ok ⟨Gen.curve_NIST192p, Gen.curve_NIST192p.gx, Gen.curve_NIST192p.gy⟩ := by decide +kernel
+
+/-- **K2 (open known finding) reproduced in the composed model by kernel evaluation**: on SECP112r2 (cofactor 4) the point
+of order 2 (y = 0) and the point x = 0 of order 2n are ACCEPTED by `from_string` with the point-arithmetic model as
+subgroup test (`n * point` is INFINITY at once when y = 0, and lands on the order-2 point, which the code treats as the
+identity), although they are not multiples of G; a point of order 4 is rejected, as it should be.  The replay on the
+real code is the search of `harness/props/C08.py`. -/
+example :
+    VK.fromString KeysWire.modelExt Gen.curve_SECP112r2
+      (0x04 :: (beFixed 14 0xb1fd8de127d4656b573eb513984d ++ beFixed 14 0)) true
+      = .ok ⟨Gen.curve_SECP112r2, 0xb1fd8de127d4656b573eb513984d, 0⟩
+    ∧ VK.fromString KeysWire.modelExt Gen.curve_SECP112r2 (0x02 :: beFixed 14 0) true
+      = .ok ⟨Gen.curve_SECP112r2, 0, 4068388951543491789236932070092414⟩
+    ∧ VK.fromString KeysWire.modelExt Gen.curve_SECP112r2
+      (0x04 :: (beFixed 14 3610075134545239076002374364665932 ++ beFixed 14 964432197919735907550954472026594)) true
       = .error .malformedPoint := by decide +kernel
 
 /-- K2 in the model's terms: the order-2 point of SECP112r2 passes every check except the subgroup clause — whatever
